@@ -477,6 +477,8 @@ void BW_MidiSequencer::setSongNum(int track)
     {
         if(m_loadTrackNumber >= (int)m_rawSongsData.size())
             m_loadTrackNumber = m_rawSongsData.size() - 1;
+        if(m_loadTrackNumber < 0) // Mixing of all songs is not supported
+            m_loadTrackNumber = 0;
 
         if(m_interface && m_interface->rt_controllerChange)
         {
@@ -3089,6 +3091,8 @@ bool BW_MidiSequencer::parseXMI(FileAndMemReader &fr)
 
     if(m_loadTrackNumber >= (int)song_buf.size())
         m_loadTrackNumber = song_buf.size() - 1;
+    if(m_loadTrackNumber < 0) // Mixing of all songs is not supported
+        m_loadTrackNumber = 0;
 
     for(size_t i = 0; i < song_buf.size(); ++i)
     {
